@@ -51,8 +51,8 @@ def gen_message(rng):
 def gen_detail(rng, depth=2):
     if rng.random() < .3:
         return None
-    if depth == 2:
-        # the detail document has a single root member (what the XML-based protocols can carry)
+    if depth == 2 and rng.random() < .5:
+        # a single root member
         inner = gen_detail(rng, 1)
         return {rng.choice(('detail_root', 'err', 'info')): inner if inner else 'leaf'}
     d = {}
@@ -232,8 +232,11 @@ def expected_status(kind, code, dedicated_status):
     return 500
 
 
-def one(R, kind, wsgi, server, rec, what, expect, status, repro, rng, tokens=()):
-    req = M.encode_request(kind, 'boom', [('token', 'T')])
+def one(R, kind, wsgi, server, rec, what, expect, status, repro, rng, tokens=(), method='boom'):
+    if method == 'boom' and not what.startswith('dedicated'):
+        # the same failure raised from a generator function (through the transport only: that is where its body runs)
+        one(R, kind, wsgi, None, rec, what + '@generator', expect, status, dict(repro, generator=True), rng, tokens, method='gboom')
+    req = M.encode_request(kind, method, [('token', 'T')])
     for driver in ('wsgi', 'server'):
         if driver == 'server' and server is None:
             continue
